@@ -43,6 +43,12 @@ def gen_c16(rng: random.Random, sid: str, thorough: bool) -> dict:
     sc['steps'] = [s for s in out if not (s['op'] == 'query' and s.get('copies', 1) > 1)] if False else out
     for s in sc['steps']:
         s.pop('copies', None)
+        # question classes other than IN (the library answers them like IN): only here, where two executions are compared and
+        # no contract has to say what the answer should be
+        if s['op'] == 'query' and rng.random() < 0.15:
+            for q in s['qs']:
+                if not q.get('qu') and rng.random() < 0.7:
+                    q['cls'] = rng.choice([255, 255, 3, 254])
     # socket layouts: one IPv4 socket, listen + respond sockets, or the dual-stack set (IPv6 listen socket reporting 4-tuple
     # addresses; peers then are IPv6 hosts or IPv4 hosts seen as v4-mapped addresses)
     sc['layout'] = rng.choice(['single', 'split', 'dual', 'dual'])
